@@ -27,6 +27,8 @@ type schedConn struct {
 	closed    bool
 	failFirst int // >= 0: the parked Write accepts only this many bytes and then fails
 	failed    bool
+	inWrite   bool // a Write is parked inside the transport (its caller holds the connection)
+	swdDuring int  // SetWriteDeadline calls that arrived while that Write was in flight
 }
 
 func (c *schedConn) Write(p []byte) (int, error) {
@@ -35,8 +37,14 @@ func (c *schedConn) Write(p []byte) (int, error) {
 	c.parked = true
 	c.mu.Unlock()
 	if first {
+		c.mu.Lock()
+		c.inWrite = true
+		c.mu.Unlock()
 		close(c.entered)
 		<-c.gate
+		c.mu.Lock()
+		c.inWrite = false
+		c.mu.Unlock()
 		if c.failFirst >= 0 {
 			n := c.failFirst
 			if n > len(p) {
@@ -56,13 +64,27 @@ func (c *schedConn) Write(p []byte) (int, error) {
 	c.mu.Unlock()
 	return len(p), nil
 }
-func (c *schedConn) Read(p []byte) (int, error)         { select {} }
-func (c *schedConn) Close() error                       { c.mu.Lock(); c.closed = true; c.mu.Unlock(); return nil }
-func (c *schedConn) LocalAddr() net.Addr                { return tAddr{} }
-func (c *schedConn) RemoteAddr() net.Addr               { return tAddr{} }
-func (c *schedConn) SetDeadline(t time.Time) error      { return nil }
-func (c *schedConn) SetReadDeadline(t time.Time) error  { return nil }
-func (c *schedConn) SetWriteDeadline(t time.Time) error { return nil }
+func (c *schedConn) Read(p []byte) (int, error)        { select {} }
+func (c *schedConn) Close() error                      { c.mu.Lock(); c.closed = true; c.mu.Unlock(); return nil }
+func (c *schedConn) LocalAddr() net.Addr               { return tAddr{} }
+func (c *schedConn) RemoteAddr() net.Addr              { return tAddr{} }
+func (c *schedConn) SetDeadline(t time.Time) error     { return nil }
+func (c *schedConn) SetReadDeadline(t time.Time) error { return nil }
+func (c *schedConn) SetWriteDeadline(t time.Time) error {
+	c.mu.Lock()
+	if c.inWrite {
+		c.swdDuring++
+	}
+	c.mu.Unlock()
+	return nil
+}
+
+// delayPool: a WriteBufferPool whose Put dawdles, which widens the window between a frame's write
+// (connection released) and the bookkeeping that follows it in the message path
+type delayPool struct{}
+
+func (delayPool) Get() interface{}  { return nil }
+func (delayPool) Put(v interface{}) { time.Sleep(3 * time.Millisecond) }
 
 func runSchedScenario(seed int64) *scenario {
 	r := rand.New(rand.NewSource(seed))
@@ -76,15 +98,41 @@ func runSchedScenario(seed int64) *scenario {
 	restore := websocket.VerifSetMaskRand(&lockedReader{r: ks})
 	defer restore()
 	wbuf := []int{16, 125, 512, 4096}[r.Intn(4)]
-	c := websocket.VerifNewConn(sconn, srv, 0, wbuf, nil, nil, nil)
+	// who is parked inside the transport holding the connection:
+	//   0 the data writer (WriteMessage)              - WriteControl callers queue behind it
+	//   1 a WriteControl(ping)                        - the data writer and other WriteControls queue behind it
+	//   2 a close sent through the message path       - WriteControl callers queue behind it
+	mode := []int{0, 0, 1, 2}[r.Intn(4)]
+	var pool websocket.BufferPool
+	if mode == 2 {
+		pool = delayPool{}
+		if wbuf < 125 {
+			wbuf = 125
+		}
+	}
+	c := websocket.VerifNewConn(sconn, srv, 0, wbuf, pool, nil, nil)
 	payload := make([]byte, []int{3, 200, 1000, 5000}[r.Intn(4)])
 	for i := range payload {
 		payload[i] = byte(i)
 	}
+	parkedCtl := []byte(fmt.Sprintf("parked-%d", seed%1000))
+	if mode == 2 {
+		parkedCtl = append([]byte{0x03, 0xe8}, parkedCtl...)
+	}
 	var wg sync.WaitGroup
 	var werr error
 	wg.Add(1)
-	go func() { defer wg.Done(); werr = c.WriteMessage(2, payload) }()
+	go func() {
+		defer wg.Done()
+		switch mode {
+		case 0:
+			werr = c.WriteMessage(2, payload)
+		case 1:
+			werr = c.WriteControl(websocket.PingMessage, parkedCtl, time.Now().Add(20*time.Second))
+		case 2:
+			werr = c.WriteMessage(websocket.CloseMessage, parkedCtl)
+		}
+	}()
 	select {
 	case <-sconn.entered:
 	case <-time.After(30 * time.Second):
@@ -95,6 +143,7 @@ func runSchedScenario(seed int64) *scenario {
 	n := r.Intn(7)
 	type caller struct {
 		short   bool
+		isData  bool // the data writer, queued behind a parked WriteControl (mode 1)
 		isClose bool
 		payload []byte
 		err     error
@@ -103,10 +152,19 @@ func runSchedScenario(seed int64) *scenario {
 	}
 	var callers []*caller
 	closeCount := 0
+	if mode == 2 {
+		closeCount = 1
+	}
+	if mode == 1 {
+		n++
+	}
 	for i := 0; i < n; i++ {
 		cl := &caller{short: r.Intn(2) == 0, done: make(chan struct{})}
 		cl.payload = []byte(fmt.Sprintf("ctl-%d-%d", seed%1000, i))
-		if !cl.short && r.Intn(4) == 0 && closeCount == 0 {
+		if mode == 1 && i == 0 {
+			cl.short, cl.isData, cl.payload = false, true, payload
+		}
+		if !cl.short && !cl.isData && r.Intn(4) == 0 && closeCount == 0 {
 			cl.isClose = true
 			closeCount++
 			cl.payload = append([]byte{0x03, 0xe8}, cl.payload...)
@@ -122,7 +180,11 @@ func runSchedScenario(seed int64) *scenario {
 				t = websocket.CloseMessage
 			}
 			s := time.Now()
-			cl.err = c.WriteControl(t, cl.payload, time.Now().Add(d))
+			if cl.isData {
+				cl.err = c.WriteMessage(2, cl.payload)
+			} else {
+				cl.err = c.WriteControl(t, cl.payload, time.Now().Add(d))
+			}
 			cl.took = time.Since(s)
 			close(cl.done)
 		}(cl)
@@ -179,6 +241,9 @@ func runSchedScenario(seed int64) *scenario {
 		if after == nil {
 			sc.violate("WriteMessage succeeded after a transport write had failed")
 		}
+		if sconn.swdDuring > 0 {
+			sc.violate("SetWriteDeadline reached the transport %d times while another caller's Write was in flight", sconn.swdDuring)
+		}
 		sc.emit(fmt.Sprintf("sched seed=%d srv=%d callers=%d fail=%d", seed, b2i(srv), n, sconn.failFirst), "ok")
 		sc.tag("fail")
 		return sc
@@ -226,23 +291,39 @@ func runSchedScenario(seed int64) *scenario {
 		}
 	}
 	msgs, ctls := rfcMessages(frames)
-	if werr == nil {
-		found := false
+	dataOnWire := func(p []byte) int {
+		k := 0
 		for _, m := range msgs {
-			if m.op == 2 && bytes.Equal(m.payload, payload) {
-				found = true
+			if m.op == 2 && m.complete && bytes.Equal(m.payload, p) {
+				k++
 			}
 		}
-		if !found {
+		return k
+	}
+	ctlOnWire := func(p []byte) int {
+		k := 0
+		for _, f := range ctls {
+			if bytes.Equal(f.payload, p) {
+				k++
+			}
+		}
+		return k
+	}
+	if werr == nil {
+		if mode == 0 && dataOnWire(payload) != 1 {
 			sc.violate("the writer's message was reported sent but is not intact on the wire")
 		}
+		if mode != 0 && ctlOnWire(parkedCtl) != 1 {
+			sc.violate("the parked control/close frame was reported sent but is on the wire %d times", ctlOnWire(parkedCtl))
+		}
+	}
+	if sconn.swdDuring > 0 {
+		sc.violate("SetWriteDeadline reached the transport %d times while another caller's Write was in flight: a caller that does not hold the connection changed the deadline of the frame being written", sconn.swdDuring)
 	}
 	for i, cl := range callers {
-		cnt := 0
-		for _, f := range ctls {
-			if bytes.Equal(f.payload, cl.payload) {
-				cnt++
-			}
+		cnt := ctlOnWire(cl.payload)
+		if cl.isData {
+			cnt = dataOnWire(cl.payload)
 		}
 		switch {
 		case cl.short && cnt != 0:
@@ -264,6 +345,7 @@ func runSchedScenario(seed int64) *scenario {
 	}
 	sc.emit(fmt.Sprintf("sched seed=%d srv=%d callers=%d", seed, b2i(srv), n), "ok")
 	sc.tag(fmt.Sprintf("callers:%d", n))
+	sc.tag(fmt.Sprintf("parked:%d", mode))
 	if closeSeen {
 		sc.tag("close")
 	}
